@@ -1,9 +1,9 @@
-// Points the shared harness sources at this shard's generated theories.
+// Points this shard at its generated theories.
 fn main() {
     println!("cargo:rerun-if-env-changed=VERIF_GEN_ROOT");
     let root = std::env::var("VERIF_GEN_ROOT").expect("VERIF_GEN_ROOT");
     let pkg = std::env::var("CARGO_PKG_NAME").unwrap();
-    let shard = pkg.trim_start_matches("models_");
+    let shard = pkg.trim_start_matches("gen_");
     println!("cargo:rustc-env=VERIF_GEN_DIR={root}/{shard}");
     println!("cargo:rerun-if-changed={root}/{shard}/registry.rs");
 }
